@@ -5,7 +5,7 @@ mod elem;
 mod exec;
 mod parse;
 
-use elem::{disarm, ledger_begin_line, ledger_reset, Elem, E, F, W, Z};
+use elem::{disarm, ledger_begin_line, ledger_reset, Elem, E, EW, F, W, Z};
 use exec::{resolve, vals, Exec, Pos, St};
 use parse::{parse_line, receiver_ok, Cmd, ItKind, Last, Op};
 use std::cell::RefCell;
@@ -107,6 +107,7 @@ fn parse_case(line: &str) -> Option<(String, &'static str)> {
         "elem=unit" => "unit",
         "elem=nan" => "nan",
         "elem=wide" => "wide",
+        "elem=widecell" => "widecell",
         _ => return None,
     };
     Some((t[1].to_string(), kind))
@@ -167,6 +168,7 @@ fn main() {
                 "unit" => run_case::<()>(&mut io),
                 "nan" => run_case::<F>(&mut io),
                 "wide" => run_case::<W>(&mut io),
+                "widecell" => run_case::<EW>(&mut io),
                 _ => run_case::<Z>(&mut io),
             };
         } else {
